@@ -201,7 +201,7 @@ theorem inv_take {s : Sys} {i : Nat} {c : Child} (h : Inv s) (hc : s.children[i]
       have := h.once j
       rw [reaped_self hc] at this
       simp [hch, logCount] at this
-      simp [hr0, PState.isAlive]
+      simp [PState.isAlive]
       exact this
     · rw [reaped_set_other hc hji]
       have := h.once j
